@@ -888,3 +888,4 @@ pub fn c06_alias_without_anchor() {
     std::mem::forget(r);
     std::mem::forget(p);
 }
+
